@@ -7,6 +7,7 @@ L ::= ("int",) | ("str",) | ("any",) | ("none",)
     | ("pep604", [L...])           L1 | L2        (types.UnionType; plain classes only)
     | ("optional", L)              typing.Optional[L]
     | ("arr", cat, spec)           cat[np.ndarray, spec]
+    | ("arrnode", cat, spec)       cat[NodeArr, spec] - NodeArr is an array-like that is ALSO a PyTree node
     | ("pytree", L)                PyTree[L] (structure-less, nested)
 """
 
@@ -19,6 +20,22 @@ import typing
 import numpy as np
 
 from . import dims as M
+
+class NodeArr(typing.NamedTuple):
+    """an array type that jax would happily flatten further (a NamedTuple holding its buffer and a tag, like an
+    equinox Module wrapping an array): wherever it matches the leaf type it IS the leaf"""
+
+    data: np.ndarray
+    tag: int
+
+    @property
+    def shape(self):
+        return self.data.shape
+
+    @property
+    def dtype(self):
+        return self.data.dtype
+
 
 FLOATS = {"float16", "float32", "float64"}
 INTS = {"int8", "int16", "int32", "int64"}
@@ -48,6 +65,8 @@ def build(L, cache=None):
         return typing.Optional[build(L[1])]
     if k == "arr":
         return getattr(jaxtyping, L[1])[np.ndarray, L[2]]
+    if k == "arrnode":
+        return getattr(jaxtyping, L[1])[NodeArr, L[2]]
     if k == "arrnest":  # Cat[Shaped[ndarray, inner], outer]: documented to mean Cat[ndarray, "outer inner"]
         return getattr(jaxtyping, L[1])[jaxtyping.Shaped[np.ndarray, L[3]], L[2]]
     if k == "pytree":
@@ -96,8 +115,8 @@ def matches(x, L, s, v, flatten, label=None, nested_struct=False):
         return matches(x, L[1], s, v, flatten, label)
     if k == "arrnest":
         return matches(x, ("arr", L[1], (L[2] + " " + L[3]).strip()), s, v, flatten, label, nested_struct)
-    if k == "arr":
-        if not isinstance(x, np.ndarray):
+    if k in ("arr", "arrnode"):
+        if not isinstance(x, np.ndarray if k == "arr" else NodeArr):
             return False, s, v
         if flatten:
             return True, s, v
@@ -129,7 +148,7 @@ def matches(x, L, s, v, flatten, label=None, nested_struct=False):
 
 
 def has_array(L):
-    if L[0] in ("arr", "arrnest"):
+    if L[0] in ("arr", "arrnest", "arrnode"):
         return True
     if L[0] in ("tuple", "union", "pep604"):
         return any(has_array(x) for x in L[1])
@@ -152,6 +171,8 @@ def show(L):
         return f"Optional[{show(L[1])}]"
     if k == "arr":
         return f"{L[1]}[ndarray, {L[2]!r}]"
+    if k == "arrnode":
+        return f"{L[1]}[NodeArr, {L[2]!r}]"
     if k == "arrnest":
         return f"{L[1]}[Shaped[ndarray, {L[3]!r}], {L[2]!r}]"
     if k == "pytree":
